@@ -7,7 +7,8 @@
    2. Exact reference functions on the dyadic view of float64 ([num] of FormatModel.v: NFin neg m e =
       (-1)^neg * m * 2^e): floor ceil abs fmod modf frexp and the order used by max/min, all in Z
       arithmetic.  They instantiate the oracles when the model is run on harness cases, so the
-      correspondence compares Go's math.Floor etc. against them.  sqrt, ldexp, deg, rad are run
+      correspondence compares Go's math.Floor etc. against them.  ldexp is a Z-level rounding
+      ([round64]; PrimFloat's ldexp is evaluated next to it by [spec_math]); sqrt, deg, rad are run
       through Coq's primitive binary64 floats (PrimFloat), which round as IEEE 754 does. *)
 From Coq Require Import Floats.
 From GL Require Import Common.Bytes Str.FormatModel.
@@ -15,6 +16,11 @@ From GL Require Import Common.Bytes Str.FormatModel.
 Inductive mres (num : Type) := MOk (l : list num) | MErr.
 Arguments MOk {num} l.
 Arguments MErr {num}.
+
+(* mathLdexp keeps the exponent inside +-2^12 before calling math.Ldexp, which adds x's own exponent to
+   it without an overflow check (ldexp(0.5, -2^63) was +Inf).  float64 exponents span less than 2^12:
+   beyond that the result is 0 or an infinity already (MathWLdexp.ref_ldexp_clamp). *)
+Definition clamp_exp (e : Z) : Z := Z.max (-4096)%Z (Z.min 4096%Z e).
 
 Section Wrappers.
   Variable num : Type.
@@ -60,7 +66,7 @@ Section Wrappers.
     end.
 
   Definition mathLdexp (args : list num) : mres num :=
-    match args with x :: e :: _ => MOk [Ldexp x (toInt e)] | _ => MErr end.
+    match args with x :: e :: _ => MOk [Ldexp x (clamp_exp (toInt e))] | _ => MErr end.
 
   Definition max_step (m v : num) : num := if ltb m v then v else m.   (* if v > max { max = v } *)
   Definition min_step (m v : num) : num := if ltb v m then v else m.   (* if v < min { min = v } *)
@@ -191,6 +197,25 @@ Definition ref_frexp (x : num) : num * Z :=
   | _ => (x, 0)
   end.
 
+(* math.Ldexp / C ldexp in Z: (-1)^neg * m * 2^E rounded to binary64 -- 53 significant bits, least
+   exponent -1074 (subnormals), ties to even, overflow to the infinity. *)
+Definition rne_shift (m d : Z) : Z :=          (* m / 2^d to the nearest integer, ties to even (d > 0) *)
+  let q := m / 2 ^ d in
+  let r := m mod 2 ^ d in
+  let h := 2 ^ (d - 1) in
+  if (h <? r) || ((r =? h) && Z.odd q) then q + 1 else q.
+
+Definition round64 (neg : bool) (m E : Z) : num :=
+  if m =? 0 then NFin neg 0 0 else
+  let q := Z.max (E + bitlen m - 53) (-1074) in          (* exponent of the result's last place *)
+  let '(m', E') := if q <=? E then (m, E) else (rne_shift m (q - E), q) in
+  if m' =? 0 then NFin neg 0 0
+  else if 1024 <? bitlen m' + E' then NInf neg
+  else NFin neg m' E'.
+
+Definition ref_ldexp_z (x : num) (k : Z) : num :=
+  match x with NFin neg m e => round64 neg m (e + k) | _ => x end.
+
 Definition is_inf_num (x : num) : bool := match x with NInf _ => true | _ => false end.
 Definition zero_like_num (x : num) : num :=
   match x with NFin s _ _ | NInf s => NFin s 0 0 | NNaN => NFin false 0 0 end.
@@ -244,7 +269,7 @@ Definition run_math (op : mop) (args : list num) : mres num :=
   | MFmod => mathFmod num ref_fmod args
   | MModf => mathModf num ref_modf is_inf_num zero_like_num args
   | MFrexp => mathFrexp num ref_frexp of_Z args
-  | MLdexp => mathLdexp num ref_ldexp to_int64 args
+  | MLdexp => mathLdexp num ref_ldexp_z to_int64 args
   | MMax => mathMax num num_ltb args
   | MMin => mathMin num num_ltb args
   end.
@@ -320,8 +345,11 @@ Definition spec_math (op : mop) (args : list num) (obs : mres num) : bool :=
       num_eqb (NFin sm mm (em + to_int64 e)) x
     | _, _, _ => num_eqb m x && num_eqb e (NFin false 0 0)
     end
+  | MLdexp, x :: e :: _, MOk [r] =>
+    (* x * 2^e rounded once: the Z-level definition, and the hardware's ldexp (PrimFloat) as a second opinion *)
+    num_eqb r (ref_ldexp_z x (clamp_exp (to_int64 e))) && num_eqb r (ref_ldexp x (clamp_exp (to_int64 e)))
   | _, _, _ =>
-    (* abs sqrt deg rad ldexp, and every arity error: the IEEE reference itself *)
+    (* abs sqrt deg rad, and every arity error: the IEEE reference itself *)
     match run_math op args, obs with
     | MOk a, MOk b => list_eqb num_eqb a b
     | MErr, MErr => true
